@@ -27,6 +27,10 @@ pub fn maybe_run(ctx: &Ctx, rep: &mut Report, tag: &str, first_shard: u64) -> bo
             if mine {
                 huge_scenario(ctx, rep, tag, ctx.shard - first_shard);
                 rep.evaluations += 1;
+                if ctx.shard - first_shard == 5 {
+                    huge_scenario(ctx, rep, tag, 6);
+                    rep.evaluations += 1;
+                }
             }
             true
         }
@@ -36,6 +40,13 @@ pub fn maybe_run(ctx: &Ctx, rep: &mut Report, tag: &str, first_shard: u64) -> bo
                 crate::guard::case_begin(HUGE_CASE);
                 huge_scenario(ctx, rep, tag, ctx.shard - first_shard);
                 rep.evaluations += 1;
+                if ctx.shard - first_shard == 5 {
+                    // the version 3 shard also asks for 4 GiB and a little: a version 3
+                    // length field has 32 bits, so that is either refused or kept whole
+                    crate::guard::case_begin(HUGE_CASE);
+                    huge_scenario(ctx, rep, tag, 6);
+                    rep.evaluations += 1;
+                }
             }
             false
         }
@@ -99,13 +110,21 @@ fn check_small(cf: &mut CompoundFile<SparseFile>, path: &str, want: &[u8], when:
     Ok(())
 }
 
+fn probe_head(big: &mut cfb::Stream<SparseFile>, model: &Overlay) -> Result<(), Fail> {
+    let got = read_at(big, 0, 5000).map_err(|e| ("huge | head unreadable after a refused growth".to_string(), format!("{e}")))?;
+    if got != model.expect(0, 5000) {
+        return Err(("huge | head changed by a refused growth".to_string(), "first 5000 bytes differ".to_string()));
+    }
+    Ok(())
+}
+
 /// `tag` names the property under which a failure is reported.
 pub fn huge_scenario(ctx: &Ctx, rep: &mut Report, tag: &str, variant: u64) {
     const G4: u64 = 1 << 32;
     let mut rng = Rng::derive(ctx.seed, &[0x4816, variant]);
     // variant 5: a version 3 file with a stream of 2 GiB and a little (MS-CFB recommends at
     // most 2 GiB for version 3; the crate writes and reads more, using all 32 length bits)
-    let v3 = variant == 5;
+    let v3 = variant >= 5;
     let version = if v3 { Version::V3 } else { Version::V4 };
     let big_len: u64 = match variant % 6 {
         0 => G4 + 100,
@@ -113,7 +132,8 @@ pub fn huge_scenario(ctx: &Ctx, rep: &mut Report, tag: &str, variant: u64) {
         2 => G4,
         3 => G4 + 128 * 1024 + 7,
         4 => G4 + 8 * 1024 * 1024 + rng.below(5000),
-        _ => (1 << 31) + *rng.pick(&[0u64, 1, 100, 4095, 5000]),
+        5 => (1 << 31) + *rng.pick(&[0u64, 1, 100, 4095, 5000]),
+        _ => G4 + *rng.pick(&[0u64, 100, 512, 5000]),
     };
     let mut log: Vec<String> = Vec::new();
     let t0 = std::time::Instant::now();
@@ -135,7 +155,28 @@ pub fn huge_scenario(ctx: &Ctx, rep: &mut Report, tag: &str, variant: u64) {
         big.write_all(&head).and_then(|_| big.flush()).map_err(|e| (format!("{tag} | write failed"), format!("head: {e}")))?;
         model.write(0, head);
         log.push(format!("set_len({big_len})"));
-        big.set_len(big_len).map_err(|e| (format!("{tag} | set_len beyond 4 GiB failed"), format!("set_len({big_len}): {e}")))?;
+        if variant == 6 {
+            // version 3 cannot record 2^32 or more: a refusal (InvalidInput, nothing
+            // changed) is the one acceptable alternative to keeping the length whole
+            match big.set_len(big_len) {
+                Err(e) if e.kind() == std::io::ErrorKind::InvalidInput => {
+                    if big.len() != 1 << 20 {
+                        return Err((format!("{tag} | refused set_len changed len()"), format!("version 3, set_len({big_len}) refused ({e}), len() = {}", big.len())));
+                    }
+                    probe_head(&mut big, &model)?;
+                    drop(big);
+                    check_small(&mut cf, "/small_a", &small_a, "after the refused growth", tag)?;
+                    check_small(&mut cf, "/first", &first, "after the refused growth", tag)?;
+                    OpenOptions::new().strict().open_with(shared.handle()).map_err(|e| (format!("{tag} | file does not reopen after a refused growth"), format!("{e}")))?;
+                    rep.count("huge.v3_growth_to_4gib_refused");
+                    return Ok(());
+                }
+                Err(e) => return Err((format!("{tag} | set_len beyond 4 GiB failed"), format!("version 3, set_len({big_len}): {e}"))),
+                Ok(()) => rep.count("huge.v3_growth_to_4gib_accepted"),
+            }
+        } else {
+            big.set_len(big_len).map_err(|e| (format!("{tag} | set_len beyond 4 GiB failed"), format!("set_len({big_len}): {e}")))?;
+        }
         model.len = big_len;
         if big.len() != big_len {
             return Err((format!("{tag} | len() wrong beyond 4 GiB"), format!("len() = {} after set_len({big_len})", big.len())));
